@@ -23,12 +23,9 @@
 (***************************************************************************)
 EXTENDS Integers, Sequences, FiniteSets, TLC, SequencesExt, TmplTokens
 
-CONSTANTS TokSet,      \* token ids the generator appends to "main"
-          MaxToks,     \* bound on the number of tokens of "main"
-          Libs,        \* library variants (index into Library) offered for base / inc
-          AEs,         \* loader autoescape settings explored: subset of {"xhtml_escape", "None"}
-          WSs,         \* loader whitespace settings explored: subset of {"all", "single", "oneline"}
-          SLen,        \* values of the pool string s: DefaultS, plus every string over SAlpha up to this length
+CONSTANTS Fams,        \* names of the template families explored (see Family below)
+          Grow,        \* added to every family's token bound (0 = quick bounds)
+          SLen,        \* values of the pool string s in the "values" families: every string over SAlpha up to this length
           Fuel         \* iteration bound for while loops (more = unspecified "diverge")
 
 LBc == 123  RBc == 125  PCc == 37  HASHc == 35  BANGc == 33  SPc == 32  LFc == 10
@@ -77,32 +74,32 @@ LexStep(T, a, i) ==
     ELSE IF a.mode = "text" THEN
         IF /\ c = LBc /\ i < n /\ T[i + 1] \in {LBc, PCc, HASHc}
            /\ ~(i + 2 <= n /\ T[i + 1] = LBc /\ T[i + 2] = LBc)
-        THEN LET flushed == IF a.buf = <<>> THEN a.toks
-                            ELSE Append(a.toks, [k |-> "text", s |-> a.buf, line |-> a.line, eline |-> a.line])
+        THEN LET flushed == IF a.buf = <<>> THEN a.tks
+                            ELSE Append(a.tks, [k |-> "text", s |-> a.buf, line |-> a.line, eline |-> a.line])
              IN IF i + 2 <= n /\ T[i + 2] = BANGc
-                THEN [a EXCEPT !.toks = Append(flushed, [k |-> "text", s |-> <<LBc, T[i + 1]>>,
+                THEN [a EXCEPT !.tks = Append(flushed, [k |-> "text", s |-> <<LBc, T[i + 1]>>,
                                                          line |-> a.line, eline |-> a.line]),
                                !.buf = <<>>, !.skip = 2]
-                ELSE [a EXCEPT !.toks = flushed, !.buf = <<>>, !.skip = 1, !.start = a.line,
+                ELSE [a EXCEPT !.tks = flushed, !.buf = <<>>, !.skip = 1, !.start = a.line,
                                !.mode = (CASE T[i + 1] = LBc -> "expr" [] T[i + 1] = PCc -> "block" [] OTHER -> "cmt")]
         ELSE [a EXCEPT !.buf = Append(@, c), !.line = ln]
     ELSE
         IF c = Closer(a.mode) /\ i < n /\ T[i + 1] = RBc
-        THEN [a EXCEPT !.toks = (IF a.mode = "cmt" THEN a.toks
-                                 ELSE Append(a.toks, [k |-> a.mode, s |-> Strip(a.buf), line |-> a.start, eline |-> a.line])),
+        THEN [a EXCEPT !.tks = (IF a.mode = "cmt" THEN a.tks
+                                 ELSE Append(a.tks, [k |-> a.mode, s |-> Strip(a.buf), line |-> a.start, eline |-> a.line])),
                        !.buf = <<>>, !.skip = 1, !.mode = "text"]
         ELSE [a EXCEPT !.buf = Append(@, c), !.line = ln]
 
-(* Lex(T) = [toks, nlines]; an unterminated tag becomes a final "lexerr" token at the line the tag starts *)
+(* Lex(T) = [tks, nlines]; an unterminated tag becomes a final "lexerr" token at the line the tag starts *)
 Lex(T) ==
-    LET a0 == [mode |-> "text", buf |-> <<>>, toks |-> <<>>, line |-> 1, start |-> 1, skip |-> 0]
+    LET a0 == [mode |-> "text", buf |-> <<>>, tks |-> <<>>, line |-> 1, start |-> 1, skip |-> 0]
         a == FoldLeftDomain(LAMBDA acc, i : LexStep(T, acc, i), a0, T)
-        toks == IF a.mode # "text"
-                  THEN Append(a.toks, [k |-> "lexerr", s |-> <<>>, line |-> a.start, eline |-> a.start])
+        toks_ == IF a.mode # "text"
+                  THEN Append(a.tks, [k |-> "lexerr", s |-> <<>>, line |-> a.start, eline |-> a.start])
                 ELSE IF a.buf # <<>>
-                  THEN Append(a.toks, [k |-> "text", s |-> a.buf, line |-> a.line, eline |-> a.line])
-                ELSE a.toks
-    IN [toks |-> toks, nlines |-> a.line]
+                  THEN Append(a.tks, [k |-> "text", s |-> a.buf, line |-> a.line, eline |-> a.line])
+                ELSE a.tks
+    IN [tks |-> toks_, nlines |-> a.line]
 
 -----------------------------------------------------------------------------
 (* Layer 2: Parse / WellFormed *)
@@ -164,8 +161,8 @@ ParseBlockTok(p, tk) ==
     ELSE IF o = "comment" THEN p
     ELSE IF o \in {"extends", "include"} THEN
         IF StripQ(sfx) = <<>> THEN Err(p, span)
-        ELSE AddNode(MarkUn(p, o = "extends" /\ depth > 1, "nested-extends"),
-                     [k |-> o, file |-> NameOf(Pool, StripQ(sfx))])
+        ELSE IF o = "extends" /\ depth > 1 THEN AddNode(MarkUn(p, TRUE, "nested-extends"), [k |-> "py"])
+        ELSE AddNode(p, [k |-> o, file |-> NameOf(Pool, StripQ(sfx))])
     ELSE IF o = "set" THEN
         IF sfx = <<>> THEN Err(p, span)
         ELSE AddNode(MarkUn(p, arg \notin SetStmts, "python"), [k |-> "set", e |-> arg])
@@ -212,7 +209,7 @@ RootFrame == [op |-> "root", arg |-> "", sfx |-> <<>>, line |-> 0, parts |-> <<>
 Parse(T, ws) ==
     LET lx == Lex(T)
         p0 == [st |-> <<RootFrame>>, err |-> {}, un |-> "", ws |-> ws, ae |-> "unset", soft |-> FALSE]
-        p1 == FoldLeft(ParseTok, p0, lx.toks)
+        p1 == FoldLeft(ParseTok, p0, lx.tks)
         p == IF p1.err = {} /\ Len(p1.st) > 1 THEN [Err(p1, p1.st[2].line..lx.nlines) EXCEPT !.soft = TRUE] ELSE p1
     IN [ok |-> p.err = {}, lines |-> p.err, body |-> p.st[1].cur, un |-> p.un, ae |-> p.ae, soft |-> p.soft]
 
@@ -460,9 +457,11 @@ Run(src, cfg) ==
            [] OTHER -> [Res("unspec") EXCEPT !.why = "signal"]
 
 -----------------------------------------------------------------------------
-(* State machine: "main" is built token by token; base / inc come from a library variant *)
+(* State machine: "main" is built token by token (after a family-specific prefix); base / inc
+   come from a library variant.  A family fixes the token alphabet, the bound and the loader
+   settings explored, so that one TLC run enumerates several focused template spaces. *)
 
-VARIABLES cfg,     \* [ae, ws, sval, bval, oval, fuel, lib]
+VARIABLES cfg,     \* [fam, ae, ws, sval, bval, oval, fuel, lib, pre]
           toks,    \* token ids of "main" (generator only)
           src,     \* file name -> text (code points)
           res,     \* Run(src, cfg)
@@ -483,13 +482,60 @@ Library(n) ==
                    inc  |-> Render(<<"ae_none", "ws_single", "a_sp_sp_a", "e_s", "e_x", "e_k">>)]
       [] n = 4 -> [base |-> Render(<<"a", "nl", "block_p", "nl", "bogus", "end">>),
                    inc  |-> Render(<<"nl", "nl", "if_t", "nl">>)]
+      [] n = 5 -> [base |-> Render(<<"apply_wrap", "block_p", "e_s", "end", "end", "ae_x">>),
+                   inc  |-> Render(<<"block_p", "raw_s", "end", "for_y", "e_y", "end">>)]
       [] OTHER -> [base |-> <<>>, inc |-> <<>>]
 
 DefaultS == <<60, 38, 97, 34, 39, 62>>     \* <&a"'>
 SAlpha == {60, 62, 38, 34, 39, 97}
-SVals == {DefaultS} \cup (IF SLen = 0 THEN {} ELSE BoundedSeq(SAlpha, SLen))
 DefaultB == <<60, 98, 233, 62>>           \* "<bé>" (the bytes value is its UTF-8 encoding)
 DefaultO == <<60, 111, 38, 62>>           \* "<o&>"
+AllS == {DefaultS} \cup BoundedSeq(SAlpha, SLen)
+
+AEboth == {"xhtml_escape", "None"}
+F(toks_, max, libs, aes, wss, svals, pre) ==
+    [alpha |-> toks_, max |-> max, libs |-> libs, aes |-> aes, wss |-> wss, svals |-> svals, pre |-> pre]
+
+Family(f) ==
+    CASE f = "lex" ->       \* character level: brace runs, escapes, unterminated and empty tags
+           F({"lb", "rb", "pc", "hash", "bang", "n_ch", "nl"}, 4, {0}, {"xhtml_escape"}, {"all"}, {DefaultS}, <<>>)
+      [] f = "text" ->      \* literal text: quotes, backslash, non-ASCII, escapes next to braces, comments
+           F({"a", "dq", "bsl", "eacute", "euro", "astral", "lt", "amp", "sq", "lb", "rb", "esc_expr", "esc_block", "esc_cmt",
+              "cmt", "e_n"}, 3, {0}, {"xhtml_escape"}, {"all"}, {DefaultS}, <<>>)
+      [] f = "control" ->   \* if / elif / else, for with break / continue / else
+           F({"a", "e_x", "if_t", "if_f", "if_x1", "elif_t", "else", "end", "for_x", "for_e", "break", "continue"},
+             4, {0}, {"xhtml_escape"}, {"all"}, {DefaultS}, <<>>)
+      [] f = "while" ->     \* while with a counter (prefix: set k = 0)
+           F({"e_k", "while_k", "while_f", "set_kinc", "if_k1", "break", "continue", "else", "end"},
+             4, {0}, {"xhtml_escape"}, {"all"}, {DefaultS}, <<"set_k0">>)
+      [] f = "try" ->       \* try / except / else / finally around a raising call
+           F({"a", "e_boom", "e_k", "try", "except", "except_zde", "except_ne", "else", "finally", "end"},
+             4, {0}, {"xhtml_escape"}, {"all"}, {DefaultS}, <<>>)
+      [] f = "tryloop" ->   \* signals through finally inside a loop (prefix: for x in r, try)
+           F({"a", "e_x", "e_boom", "break", "continue", "except", "finally", "else", "end", "if_x1"},
+             4, {0}, {"xhtml_escape"}, {"all"}, {DefaultS}, <<"for_x", "try">>)
+      [] f = "apply" ->     \* apply blocks: nested function, scoping, break across apply
+           F({"a", "e_s", "e_x", "raw_s", "apply_wrap", "apply_esc", "for_x", "for_y", "set_k0", "e_k", "break", "end", "e_boom"},
+             4, {0}, AEboth, {"all"}, {DefaultS}, <<>>)
+      [] f = "loader" ->    \* extends / block / include through the loader, per-file settings
+           F({"a", "e_s", "ext_base", "inc_inc", "inc_inc_sq", "inc_base", "block_p", "block_q", "end", "ae_none", "ae_x", "for_x",
+              "ws_oneline", "sp_nl_sp"},
+             3, {1, 2, 3, 4, 5}, AEboth, {"all", "single"}, {DefaultS}, <<>>)
+      [] f = "ws" ->        \* whitespace filtering per text node and whitespace directives
+           F({"a", "sp", "nl", "tab", "sp_nl_sp", "a_sp_sp_a", "nl_nl", "cmt", "esc_expr", "e_n", "ws_all", "ws_single", "ws_oneline"},
+             3, {0}, {"xhtml_escape"}, {"default", "all", "single", "oneline"}, {DefaultS}, <<>>)
+      [] f = "errors" ->    \* ill-formed templates and the line of the ParseError
+           F({"nl", "a", "if_t", "for_x", "try", "end", "else", "elif_t", "except", "finally", "break", "continue", "bogus", "bogus_arg",
+              "empty_block", "empty_block_tight", "e_empty", "e_empty_tight", "cmt_open", "open_expr", "open_block",
+              "apply_empty", "block_empty", "apply_wrap", "block_p", "ext_empty", "inc_empty", "set_empty", "ae_empty", "ws_bogus",
+              "if_t_ml", "e_s_ml", "end_tight"},
+             3, {0}, {"xhtml_escape"}, {"all"}, {DefaultS}, <<>>)
+      [] f = "values" ->    \* C20: every value type / string through expression, raw, explicit escape under both settings
+           F({"e_s", "e_s_tight", "e_b", "e_n", "e_o", "e_t", "e_esc_s", "raw_s", "raw_b", "raw_o", "ae_none", "ae_x"},
+             2, {0}, AEboth, {"all"}, AllS, <<>>)
+      [] f = "escfiles" ->  \* C20: autoescape scoping across include / extends / apply
+           F({"e_s", "raw_s", "ae_none", "ae_x", "inc_inc", "ext_base", "block_p", "end", "apply_wrap", "apply_esc"},
+             3, {1, 2, 5}, AEboth, {"all"}, {DefaultS}, <<>>)
 
 InitWith(c, s) ==
     /\ cfg = c
@@ -499,21 +545,23 @@ InitWith(c, s) ==
     /\ step = [act |-> "init", args |-> <<>>, exp |-> <<>>]
 
 InitState ==
-    \E ae \in AEs, ws \in WSs, sv \in SVals, lib \in Libs :
-        InitWith([ae |-> ae, ws |-> ws, sval |-> sv, bval |-> DefaultB, oval |-> DefaultO, fuel |-> Fuel, lib |-> lib],
-                 [main |-> <<>>, base |-> Library(lib).base, inc |-> Library(lib).inc])
+    \E f \in Fams : \E ae \in Family(f).aes, ws \in Family(f).wss, sv \in Family(f).svals, lib \in Family(f).libs :
+        InitWith([fam |-> f, ae |-> ae, ws |-> ws, sval |-> sv, bval |-> DefaultB, oval |-> DefaultO, fuel |-> Fuel, lib |-> lib],
+                 [main |-> Render(Family(f).pre), base |-> Library(lib).base, inc |-> Library(lib).inc])
 
 Add(t) ==
-    /\ Len(toks) < MaxToks
+    /\ Len(toks) < Family(cfg.fam).max + Grow
+    /\ t \in Family(cfg.fam).alpha
     /\ toks' = Append(toks, t)
     /\ src' = [src EXCEPT !.main = @ \o Cps(t)]
     /\ res' = Run(src', cfg)
     /\ UNCHANGED cfg
     /\ step' = [act |-> "add", args |-> <<t>>, exp |-> <<>>]
 
-Next == \E t \in TokSet : Add(t)
+Next == \E t \in DOMAIN TokText : Add(t)
 Spec == InitState /\ [][Next]_<<vars, step>>
 View == vars
+AllToks == Family(cfg.fam).pre \o toks
 
 -----------------------------------------------------------------------------
 (* Properties *)
@@ -541,10 +589,10 @@ IsTagTok(id) == LET t == Cps(id) IN Len(t) >= 4 /\ t[1] = LBc /\ t[2] \in {LBc, 
                                     /\ (t[3] # BANGc)
 IsCmtTok(id) == id = "cmt"
 LexRoundTrip ==
-    (\A i \in 1..Len(toks) : PlainText(toks[i]) \/ IsTagTok(toks[i]) \/ IsCmtTok(toks[i])) =>
-        LET lx == Lex(src.main).toks
+    (\A i \in 1..Len(AllToks) : PlainText(AllToks[i]) \/ IsTagTok(AllToks[i]) \/ IsCmtTok(AllToks[i])) =>
+        LET lx == Lex(src.main).tks
             tags == SelectSeq(lx, LAMBDA t : t.k \in {"expr", "block"})
-            want == SelectSeq(toks, IsTagTok)
+            want == SelectSeq(AllToks, IsTagTok)
         IN /\ Len(tags) = Len(want)
            /\ \A i \in 1..Len(tags) : tags[i].s = Strip(SubSeq(Cps(want[i]), 3, Len(Cps(want[i])) - 2))
            /\ \A i \in 1..Len(lx) : lx[i].k # "lexerr"
@@ -554,9 +602,9 @@ LexRoundTrip ==
 TextOnlyTok(id) == PlainText(id) \/ id \in {"esc_expr", "esc_block", "esc_cmt", "cmt"}
 LiteralOf(id) == IF id = "cmt" THEN <<>> ELSE IF PlainText(id) THEN Cps(id) ELSE SubSeq(Cps(id), 1, 2)
 LiteralText ==
-    (cfg.ws \in {"all", "default"} /\ \A i \in 1..Len(toks) : TextOnlyTok(toks[i])) =>
+    (cfg.ws \in {"all", "default"} /\ \A i \in 1..Len(AllToks) : TextOnlyTok(AllToks[i])) =>
         /\ res.kind = "ok"
-        /\ res.out = Utf8(FlattenSeq([i \in 1..Len(toks) |-> LiteralOf(toks[i])]))
+        /\ res.out = Utf8(FlattenSeq([i \in 1..Len(AllToks) |-> LiteralOf(AllToks[i])]))
 
 (* C20: with an escaping function in effect for the file an expression tag is written in, the emitted segment
    contains none of < > " ' and no & that does not start one of the five entities *)
@@ -575,4 +623,11 @@ EscapedWhereInEffect ==
         /\ g.src = "raw" => ~g.esc
 (* the whole output is the concatenation of the segments *)
 OutputIsSegments == res.kind = "ok" => res.out = Utf8(Concat(res.segs))
+
+(* conformance of an observation of the real code with the result (the python comparator is the same relation) *)
+Match(r, obs) ==
+    CASE r.kind = "unspec" -> TRUE
+      [] r.kind = "ok" -> obs.kind = "ok" /\ obs.out = r.out
+      [] r.kind = "parse" -> obs.kind = "parse" /\ [file |-> obs.file, line |-> obs.line] \in r.errs
+      [] r.kind = "exc" -> obs.kind = "exc" /\ \E i \in 1..Len(obs.mro) : obs.mro[i] = r.cls
 =============================================================================
